@@ -34,8 +34,10 @@ RULE = (
     'one evaluation EVERY boundary of the recorded trace is a crash point, EVERY operation x errno a fault point, '
     'every write (before/half-way) and every body position a body-exception point (classes "pt:*" in the histogram '
     'count these points; "evaluations" counts scenarios/schedules).  BSP.save of tests/test_vec/rot_main.bsp over '
-    'an older file is enumerated the same way (points partitioned over slices).  Two-writer schedules: all merges '
-    'of the two boundary traces for the minimal writers, Hypothesis-drawn schedules for larger ones.  Non-trivial '
+    'an older file is enumerated the same way (points partitioned over slices).  Two-writer schedules: each job is 1-2 '
+    'consecutive uses of one AtomicWriter object; all merges of the two boundary traces for the minimal single-use '
+    'writers, all two-block merges against a twice-used writer, Hypothesis-drawn (bit or run-length) schedules for '
+    'larger ones.  Non-trivial '
     '= old != new and the trace has a point strictly between the first write and the rename (single/bsp), the two '
     'writers really overlap (two_*); distinct = sha1 of the descriptor JSON (enumerated schedules: each valid merge '
     'string is a distinct interleaving).'
@@ -995,6 +997,8 @@ class Sched:
 
 
 class TwoPlan:
+    """Two writer jobs; each job is 1-2 consecutive uses of ONE AtomicWriter object (documented as repeatable)."""
+
     def __init__(self, desc: dict) -> None:
         self.desc = desc
         self.nested = bool(desc.get('nested'))
@@ -1013,14 +1017,23 @@ class TwoPlan:
                 old = blob(seed + 17, w['old'])
                 self.initial[dest] = old
             text = bool(w['text'])
-            chunks = [text_blob(seed + 31 * (j + 1), n) if text else blob(seed + 31 * (j + 1), n)
-                      for j, n in enumerate(w['chunks'])]
-            new = ''.join(chunks).encode('utf8') if text else b''.join(chunks)
-            fail_at = w.get('fail_at')
-            if fail_at is not None:
-                fail_at = min(fail_at, len(chunks))
-            self.writers.append({'dest': dest, 'old': old, 'new': new, 'text': text, 'chunks': chunks,
-                                 'fail_at': fail_at, 'final': old if fail_at is not None else new})
+            uses = []
+            final = old
+            versions = {'own old': old}
+            for u, use in enumerate(w['uses']):
+                us = seed + 1000 * u
+                chunks = [text_blob(us + 31 * (j + 1), n) if text else blob(us + 31 * (j + 1), n)
+                          for j, n in enumerate(use['chunks'])]
+                new = ''.join(chunks).encode('utf8') if text else b''.join(chunks)
+                fail_at = use.get('fail_at')
+                if fail_at is not None:
+                    fail_at = min(fail_at, len(chunks))
+                else:
+                    final = new
+                    versions[f'own new (use {u + 1})'] = new
+                uses.append({'chunks': chunks, 'new': new, 'fail_at': fail_at})
+            self.writers.append({'dest': dest, 'old': old, 'text': text, 'uses': uses, 'final': final,
+                                 'versions': versions})
 
     def populate(self, root: str) -> None:
         os.makedirs(os.path.join(root, 'd'), exist_ok=True)
@@ -1030,31 +1043,46 @@ class TwoPlan:
 
 
 def run_two(plan: TwoPlan, root: str, schedule, only=None):
-    """Run the writers (all, or just writer `only`) on threads under the scheduler.  Returns (sched, traces, problems)."""
+    """Run the writer jobs (all, or just job `only`) on threads under the scheduler.
+
+    Returns (sched, traces, problems, events); events = global order of (writer, boundary record).
+    """
     os.mkdir(root)
     plan.populate(root)
     n = len(plan.writers)
     sched = Sched(schedule, n)
     traces = [[] for _ in range(n)]
+    events: list = []
     problems: list = []
     errors = [None] * n
     local = threading.local()
+    # per writer: what is committed, and what the use in progress would commit (None: nothing / a failing use).
+    # Only the owning thread updates its entry, between two of its own boundaries, i.e. while it holds the token.
+    state = [{'committed': w['old'], 'cand': None, 'has_cand': False} for w in plan.writers]
 
     def hook(b):
         t = getattr(local, 'wid', None)
         if t is None:
             raise HarnessError(f'boundary {b} on a thread that is not a writer')
         sched.boundary(t)
+        b['use'] = local.use
         traces[t].append(b)
+        events.append((t, b))
         # inspection while holding the token: nobody else is running
         for k, w in enumerate(plan.writers):
             got = read_file(os.path.join(root, w['dest']))
-            if got != w['old'] and got != w['new'] and not problems:
+            stt = state[k]
+            ok = got == stt['committed'] or (stt['has_cand'] and got == stt['cand'])
+            if not ok and not problems:
+                names = dict(w['versions'])
+                for kk, vv in plan.writers[1 - k]['versions'].items():
+                    names['the other writer\'s ' + kk[4:]] = vv
                 problems.append((
                     'two_boundary_old_or_new',
-                    f'at boundary #{len(sched.order)} (writer {t}: {b["at"]} {b["op"]} {b["path"]}) destination '
-                    f'{w["dest"]} holds {which(got, {"own old": w["old"], "own new": w["new"], "the other new": plan.writers[1 - k]["new"]})}'
-                    f'; order so far {"".join(map(str, sched.order))}'))
+                    f'at boundary #{len(sched.order)} (writer {t} use {local.use + 1}: {b["at"]} {b["op"]} {b["path"]}) '
+                    f'destination {w["dest"]} holds {which(got, names)}; allowed: {which(stt["committed"], names)}'
+                    + (f' or {which(stt["cand"], names)}' if stt['has_cand'] else '')
+                    + f'; order so far {"".join(map(str, sched.order))}'))
         for rel, data in plan.initial.items():
             if rel.startswith('d/tmp_') or rel == 'd/keep.dat':
                 if read_file(os.path.join(root, rel)) != data and not problems:
@@ -1065,24 +1093,33 @@ def run_two(plan: TwoPlan, root: str, schedule, only=None):
 
     def work(t: int) -> None:
         local.wid = t
+        local.use = 0
         w = plan.writers[t]
         try:
             sched.begin(t)
             from srctools import AtomicWriter
             full = os.path.join(fs.root, w['dest'])
             writer = AtomicWriter(full, is_bytes=False) if w['text'] else AtomicWriter(full, is_bytes=True)
-            mine = BodyError(f'writer {t} fails')
-            try:
-                with writer as f:
-                    for j, chunk in enumerate(w['chunks']):
-                        if w['fail_at'] == j:
+            for u, use in enumerate(w['uses']):
+                local.use = u
+                mine = BodyError(f'writer {t} fails in use {u + 1}')
+                fails = use['fail_at'] is not None
+                state[t]['cand'] = None if fails else use['new']
+                state[t]['has_cand'] = not fails
+                try:
+                    with writer as f:
+                        for j, chunk in enumerate(use['chunks']):
+                            if use['fail_at'] == j:
+                                raise mine
+                            f.write(chunk)
+                        if use['fail_at'] == len(use['chunks']):
                             raise mine
-                        f.write(chunk)
-                    if w['fail_at'] == len(w['chunks']):
-                        raise mine
-            except BodyError as exc:
-                if exc is not mine:
-                    raise
+                except BodyError as exc:
+                    if exc is not mine:
+                        raise
+                else:
+                    state[t]['committed'] = use['new']
+                state[t]['has_cand'] = False
         except BaseException as exc:
             errors[t] = exc
         finally:
@@ -1105,37 +1142,69 @@ def run_two(plan: TwoPlan, root: str, schedule, only=None):
     for e in errors:
         if isinstance(e, HarnessError):
             raise e
+    if problems:
+        # the state on disk is the primary evidence; an exception that follows from it is reported second
+        return sched, traces, problems, events
     for e in errors:
         if e is not None:
             raise e
-    return sched, traces, problems
+    return sched, traces, problems, events
+
+
+def reuse_classes(events: list) -> set:
+    """Did a writer start its second use while the other one was inside its with-statement (held a temp file)?
+
+    'two:reuse_interleaved': yes; 'two:reuse_released_name': and the other's temp has the name the first use freed.
+    """
+    res = set()
+    holds = {}            # writer -> temp path currently open/owned
+    used = {}             # writer -> temp names its earlier uses had
+    seen_use = {}
+    for t, b in events:
+        if b['use'] >= 1 and seen_use.get(t, 0) < b['use']:
+            seen_use[t] = b['use']
+            other = 1 - t
+            if holds.get(other):
+                res.add('two:reuse_interleaved')
+                if holds[other] in used.get(t, ()):
+                    res.add('two:reuse_released_name')
+        if b['op'] == 'open' and 'res' not in b:
+            holds[t] = b['path']
+            used.setdefault(t, set()).add(b['path'])
+        elif b['op'] in ('replace', 'rename', 'unlink') and b['path'] == holds.get(t):
+            holds[t] = None
+    return res
 
 
 def execute_two(desc, ctx) -> None:
     plan = TwoPlan(desc)
     with CaseDir() as cd:
         root = cd.fresh()
-        sched, traces, problems = run_two(plan, root, desc['schedule'])
+        sched, traces, problems, events = run_two(plan, root, desc['schedule'])
         order = sched.order
         switches = sum(1 for a, b in zip(order, order[1:]) if a != b)
         strict = desc.get('strict')
+        first = {t: order.index(t) for t in set(order)}
+        last = {t: len(order) - 1 - order[::-1].index(t) for t in set(order)}
+        overlap = len(first) == 2 and first[0] < last[1] and first[1] < last[0]
         if strict:
             valid = sched.skipped == 0 and sched.fallback == 0 and sched.pos == len(sched.schedule)
             ctx.label('schedule_valid' if valid else 'schedule_duplicate')
             ctx.nontrivial(valid)
         else:
-            first = {t: order.index(t) for t in set(order)}
-            last = {t: len(order) - 1 - order[::-1].index(t) for t in set(order)}
-            overlap = len(first) == 2 and first[0] < last[1] and first[1] < last[0]
             ctx.nontrivial(overlap and switches >= 2)
-            ctx.label('overlap' if overlap else 'sequential')
+        ctx.label('overlap' if overlap else 'sequential')
         for _ in order:
             ctx.label('pt:two_boundary')
         if any(b['op'] == 'open' and b.get('res') == 'FileExistsError' and not b['path'] in plan.initial
                for tr in traces for b in tr):
             ctx.label('temp_name_contention')
-        if any(w['fail_at'] is not None for w in plan.writers):
+        if any(u['fail_at'] is not None for w in plan.writers for u in w['uses']):
             ctx.label('one_writer_fails')
+        if any(len(w['uses']) > 1 for w in plan.writers):
+            ctx.label('two:reuse')
+        for lab in sorted(reuse_classes(events)):
+            ctx.label(lab)
         if plan.nested:
             ctx.label('nested')
         if problems:
@@ -1145,7 +1214,9 @@ def execute_two(desc, ctx) -> None:
         for k, w in enumerate(plan.writers):
             if w['final'] is not None:
                 exp[w['dest']] = w['final']
-            names = {'own old': w['old'], 'own new': w['new'], 'the other writer\'s new': plan.writers[1 - k]['new']}
+            names = dict(w['versions'])
+            for kk, vv in plan.writers[1 - k]['versions'].items():
+                names['the other writer\'s ' + kk[4:]] = vv
             if got.get(w['dest']) != w['final']:
                 ctx.fail('two_final',
                          f'after both writers finished (order {"".join(map(str, order))}) {w["dest"]} holds '
@@ -1227,52 +1298,91 @@ def bsp_enum(tier: str):
     return bsp_cases(16, 1)(tier)
 
 
-MINI_OK = {'old': 5, 'text': False, 'chunks': [9], 'fail_at': None, 'seed': 1}
-MINI_FAIL = {'old': 5, 'text': False, 'chunks': [9], 'fail_at': 0, 'seed': 2}
+def _use(chunks, fail_at=None):
+    return {'chunks': list(chunks), 'fail_at': fail_at}
+
+
+MINI_OK = {'old': 5, 'text': False, 'seed': 1, 'uses': [_use([9])]}
+MINI_FAIL = {'old': 5, 'text': False, 'seed': 2, 'uses': [_use([9], 0)]}
+MINI_OK_OK = {'old': 5, 'text': False, 'seed': 3, 'uses': [_use([9]), _use([7])]}
+MINI_FAIL_OK = {'old': 5, 'text': False, 'seed': 4, 'uses': [_use([9], 0), _use([7])]}
 
 
 def solo_len(two_desc: dict, k: int) -> int:
-    """Number of boundaries writer k of the descriptor produces when it runs alone."""
+    """Number of boundaries writer job k of the descriptor produces when it runs alone."""
     plan = TwoPlan(two_desc)
     with CaseDir() as cd:
-        _, traces, _ = run_two(plan, cd.fresh(), [], only=k)
+        _, traces, _, _ = run_two(plan, cd.fresh(), [], only=k)
     return len(traces[k])
 
 
+def block_merges(a: int, b: int) -> list:
+    """Merges of a zeros and b ones in which the ones form at most two blocks: writer 1 starts at any boundary
+    of writer 0, is pre-empted at any of its own boundaries, and resumes at any later boundary of writer 0."""
+    out = set()
+    for p in range(b + 1):
+        for i in range(a + 1):
+            for j in range(i, a + 1):
+                out.add((0,) * i + (1,) * p + (0,) * (j - i) + (1,) * (b - p) + (0,) * (a - j))
+    return sorted(out)
+
+
 def two_enum(tier: str):
-    """All merges of the two boundary traces of the minimal writers.
+    """(1) ALL merges of the two boundary traces of the minimal single-use writers; (2) for a writer object that is
+    used twice (12 boundaries; all merges would be 18 564 > 5 000) all merges in which the other writer runs in
+    at most two blocks - it may start at any boundary of the first, including between its two uses.
 
     Contention for tmp_1 gives the later opener one extra boundary (the failed exclusive open), so merges are
     generated for (n0, n1), (n0+1, n1) and (n0, n1+1); a string that is not consumed exactly is a duplicate of
     another one and is counted as such ('schedule_duplicate', trivial).
     """
-    for pair in ([MINI_OK, MINI_OK], [MINI_FAIL, MINI_OK]):
+    for pair, full in (([MINI_OK, MINI_OK], True), ([MINI_FAIL, MINI_OK], True),
+                       ([MINI_OK_OK, MINI_OK], False), ([MINI_FAIL_OK, MINI_OK], False)):
         base = {'writers': [dict(pair[0]), dict(pair[1], seed=pair[1]['seed'] + 10)], 'nested': False, 'stale': [],
                 'strict': True}
         n0 = solo_len(dict(base, schedule=[]), 0)
         n1 = solo_len(dict(base, schedule=[]), 1)
         for a, b in ((n0, n1), (n0 + 1, n1), (n0, n1 + 1)):
-            for zeros in itertools.combinations(range(a + b), a):
-                sch = [1] * (a + b)
-                for z in zeros:
-                    sch[z] = 0
-                yield dict(base, schedule=sch)
+            if full:
+                for zeros in itertools.combinations(range(a + b), a):
+                    sch = [1] * (a + b)
+                    for z in zeros:
+                        sch[z] = 0
+                    yield dict(base, schedule=sch)
+            else:
+                for sch in block_merges(a, b):
+                    yield dict(base, schedule=list(sch))
+
+
+def _expand_runs(runs) -> list:
+    out: list = []
+    for t, n in runs:
+        out.extend([t] * n)
+    return out[:60]
 
 
 def two_strategy(tier: str):
+    use = st.fixed_dictionaries({
+        'chunks': st.lists(st.one_of(st.integers(0, 30), st.integers(0, 30000)), min_size=0, max_size=3),
+        'fail_at': st.one_of(st.none(), st.none(), st.none(), st.integers(0, 3)),
+    })
+
     def writer():
         return st.fixed_dictionaries({
             'old': st.one_of(st.none(), st.integers(0, 9000)),
             'text': st.booleans(),
-            'chunks': st.lists(st.one_of(st.integers(0, 30), st.integers(0, 30000)), min_size=0, max_size=3),
-            'fail_at': st.one_of(st.none(), st.none(), st.none(), st.integers(0, 3)),
+            'uses': st.lists(use, min_size=1, max_size=2),
             'seed': st.integers(0, 99),
         })
+    # bit strings switch all the time; run-length schedules let one writer finish a whole use (or two) before the
+    # other one moves, which is what it takes to interleave with a re-used writer object
+    bits = st.lists(st.integers(0, 1), min_size=0, max_size=40)
+    runs = st.lists(st.tuples(st.integers(0, 1), st.integers(1, 9)), min_size=0, max_size=10).map(_expand_runs)
     return st.fixed_dictionaries({
         'writers': st.tuples(writer(), writer()).map(list),
         'nested': st.sampled_from([False, False, True]),
         'stale': st.lists(st.integers(1, 3), max_size=2),
-        'schedule': st.lists(st.integers(0, 1), min_size=0, max_size=30),
+        'schedule': st.one_of(bits, runs, runs),
         'strict': st.just(False),
     })
 
@@ -1306,9 +1416,11 @@ SUBCHECKS = [
     Sub('bsp_body', execute_body, enumerate=bsp_enum, floor=1, quick_shards=8,
         must_hit=('bsp', 'pt:body:pre', 'pt:body:mid')),
     Sub('two_enum', execute_two, enumerate=two_enum, floor=1500, quick_shards=8,
-        must_hit=('schedule_valid', 'temp_name_contention', 'one_writer_fails')),
+        must_hit=('schedule_valid', 'temp_name_contention', 'one_writer_fails', 'two:reuse_interleaved',
+                  'two:reuse_released_name')),
     Sub('two_random', execute_two, strategy=two_strategy, quick=3200, thorough=50000, floor=500, quick_shards=8,
-        must_hit=('overlap', 'temp_name_contention', 'one_writer_fails', 'nested')),
+        must_hit=('overlap', 'temp_name_contention', 'one_writer_fails', 'nested', 'two:reuse_interleaved',
+                  'two:reuse_released_name')),
 ]
 
 MATCHERS = {}
